@@ -355,13 +355,136 @@ MODELLED = {"duct-zero-wall", "pins-do-not-fit", "wire-too-thick", "clad-too-thi
             "odd-duct-values"}
 
 
+# ---------------------------------------------------------------------------------------------------------------
+# axial-region acceptance: Model/AcceptRegions.lean (Props/C18Regions.lean) vs DASSH_Input.check_unrodded_regions
+
+class _CaptureLogger:
+    def __init__(self):
+        self.msgs = []
+
+    def _rec(self, msg, *a, **k):
+        self.msgs.append(str(msg))
+    info = warning = error = critical = debug = log = _rec
+
+
+def region_layouts(rng, n):
+    """user region lists (z_lo, z_hi) in the user's order on a grid of L/20 (coincident bounds are frequent): valid layouts (blocks of
+    contiguous regions at the inlet and/or the outlet) and single mutations of them - zero height, inverted, nested, overlapping,
+    outside the core, second free space, no free space, shuffled - plus random pairs"""
+    out = []
+    for _ in range(n):
+        L = rng.choice([1.0, 3.862, round(rng.uniform(0.05, 5.0), 4), rng.uniform(0.05, 5.0)])
+        g = [L * i / 20.0 for i in range(21)]
+        g[-1] = L
+        k_lo, k_hi = rng.choice([(1, 0), (0, 1), (1, 1), (2, 0), (0, 2), (2, 1), (1, 2), (2, 2), (3, 1)])
+        cut = sorted(rng.sample(range(1, 20), k_lo + k_hi))
+        lo_idx = [0] + cut[:k_lo]
+        hi_idx = cut[k_lo:] + [20]
+        regs = [(g[lo_idx[i]], g[lo_idx[i + 1]]) for i in range(k_lo)] + [(g[hi_idx[i]], g[hi_idx[i + 1]]) for i in range(k_hi)]
+        kind = rng.choice(["valid", "valid", "valid-shuffled", "zero-height", "zero-height-nested", "zero-height-at-end", "inverted",
+                           "overlap", "beyond-core", "below-inlet", "second-space", "no-space", "random", "duplicate"])
+        j = rng.randrange(len(regs))
+        a, b = regs[j]
+        if kind == "zero-height":
+            regs[j] = (a, a)
+        elif kind == "zero-height-nested":
+            x = rng.uniform(a, b) if rng.random() < 0.5 else rng.choice([a, b, 0.5 * (a + b)])
+            regs.insert(rng.randrange(len(regs) + 1), (x, x))
+        elif kind == "zero-height-at-end":
+            x = rng.choice([0.0, L])
+            regs.insert(rng.randrange(len(regs) + 1), (x, x))
+        elif kind == "inverted":
+            regs[j] = (b, a)
+        elif kind == "overlap":
+            regs.insert(rng.randrange(len(regs) + 1), (a + 0.25 * (b - a), b + rng.choice([0.0, 0.25 * (b - a)])))
+        elif kind == "beyond-core":
+            regs[-1] = (regs[-1][0], L * rng.choice([1.0 + 1e-12, 1.05, 2.0])) if k_hi else (0.9 * L, 1.1 * L)
+            if not k_hi:
+                regs = regs + [regs.pop()]
+        elif kind == "below-inlet":
+            regs[0] = (-L * rng.choice([1e-12, 0.05]), regs[0][1])
+        elif kind == "second-space":
+            regs[j] = (a + 0.25 * (b - a), b) if rng.random() < 0.5 else (a, b - 0.25 * (b - a))
+        elif kind == "no-space":
+            regs = [(g[i], g[i2]) for i, i2 in zip([0] + cut, cut + [20])]
+        elif kind == "random":
+            regs = [tuple(sorted(rng.sample(g, 2))) if rng.random() < 0.8 else (rng.choice(g), rng.choice(g))
+                    for _ in range(rng.randint(1, 4))]
+        elif kind == "duplicate":
+            regs.append(regs[j])
+        if kind != "valid":
+            rng.shuffle(regs)
+        out.append((kind, float(L), [(float(x), float(y)) for x, y in regs]))
+    return out
+
+
+def real_region_verdict(L, regs):
+    """the real DASSH_Input.check_unrodded_regions on a stub input object (real log(): error = SystemExit)"""
+    from dassh.read_input import DASSH_Input
+    obj = DASSH_Input.__new__(DASSH_Input)
+    obj._default_indent = 0
+    obj._logger = _CaptureLogger()
+    ar = {}
+    for i, (a, b) in enumerate(regs):
+        ar["r%d" % i] = dict(z_lo=a, z_hi=b, vf_coolant=0.3, hydraulic_diameter=0.0, epsilon=0.0, convection_factor=None,
+                             model='simple')
+    obj.data = {'Assembly': {'a': {'use_low_fidelity_model': False, 'convection_factor': None, 'AxialRegion': ar}},
+                'Core': {'length': L}}
+    try:
+        obj.check_unrodded_regions()
+    except SystemExit:
+        msg = " ".join(obj._logger.msgs[-1:])
+        for key, kind in (("non-postive height", "height"), ("overlap", "overlap"), ("only one rodded region", "multiple"),
+                          ("whole core length", "norods")):
+            if key in msg:
+                return "err " + kind
+        return "err other:" + msg[:80]
+    rods = obj.data['Assembly']['a']['AxialRegion']['rods']
+    return "ok %d %d" % (bits(float(rods['z_lo'])), bits(float(rods['z_hi'])))
+
+
+def layout_possible(L, regs):
+    """the property, evaluated directly: positive heights, inside the core, pairwise disjoint, room left for the pin bundle"""
+    if any(not (a < b) for a, b in regs) or any(a < 0 or b > L for a, b in regs):
+        return False
+    srt = sorted(regs)
+    if any(srt[i][1] > srt[i + 1][0] for i in range(len(srt) - 1)):
+        return False
+    return True
+
+
+def regions_correspondence(ctx, rng, n):
+    cases = region_layouts(rng, n)
+    reqs = ["regions %d | %s" % (bits(L), " ".join("%d %d" % (bits(a), bits(b)) for a, b in regs)) for _, L, regs in cases]
+    bad = 0
+    for (kind, L, regs), rep in zip(cases, modelio.ask(reqs)):
+        real = real_region_verdict(L, regs)
+        ctx.evals += 1
+        ctx.count("regions:%s:%s" % (kind, real.split()[0] + ("" if real.startswith("ok") else ":" + real.split()[1])))
+        if real.startswith("ok") and not layout_possible(L, regs):
+            # a failing input on the real code, whatever the model says
+            ctx.violation("c18-invalid-accepted:axial-region-layout:%s" % kind,
+                          "check_unrodded_regions accepts the axial regions %r of a core of length %r (%s): a region of non-positive "
+                          "height, outside the core or overlapping another one" % (regs, L, kind), L=L, regions=regs,
+                          call="harness.checks.c18.real_region_verdict(L, regions)")
+        if rep != real:
+            bad += 1
+            ctx.problem("correspondence", "Model.AcceptRegions vs DASSH_Input.check_unrodded_regions",
+                        "L=%r regions=%r (%s): model %s, real %s" % (L, regs, kind, rep, real))
+    ctx.obligation("Model.AcceptRegions reproduces check_unrodded_regions (verdict, error kind, rodded bounds bit for bit) on %d "
+                   "region layouts" % len(cases), bad == 0, kind="correspondence", detail="disagreements %d" % bad)
+
+
 def run(ctx):
     rng = random.Random(18000 + ctx.seed)
     ctx.rule = ("valid generated inputs (1-7 assemblies, 1-2 types, unrodded regions, low-fidelity, fuel models, all gap models) and "
                 "single-fault perturbations of them, one per fault class (%d classes); outcome class of the real reader / Reactor / "
                 "first 60 planes" % len(FAULTS))
     ctx.prove("Dassh.Props.C18")
+    ctx.prove("Dassh.Props.C18Regions")
     ok_driver = modelio.build_driver(ctx)
+    if ok_driver:
+        regions_correspondence(ctx, rng, 3000 if ctx.thorough else 600)
     n_valid = 24 if ctx.thorough else 8
     reqs, expect = [], []
     for ci in range(n_valid):
